@@ -41,6 +41,13 @@ def chain_of(e: ast.expr) -> Tuple[Optional[str], List[str]]:
             return None, list(reversed(path))
 
 
+def _starred(root: str) -> str:
+    """mark a provenance root as "reached as an element of it" (fresh and global roots carry no mark)"""
+    if root == "fresh" or root.startswith("global:") or root.endswith("*"):
+        return root
+    return root + "*"
+
+
 class FuncFacts(object):
     """Flow-insensitive provenance of locals and the mutation sites of one function."""
 
@@ -135,12 +142,14 @@ class FuncFacts(object):
         for v in self.assigns.get(name, []):
             out |= self.prov(v, stack)
         for v in self.elem_of.get(name, []):
-            # an element of a container is what the container holds, also when only the named object itself is asked for
+            # an element of a container is what the container holds, also when only the named object itself is asked for;
+            # roots reached this way are marked (*) so that callers keep asking for the content further up
             saved, self.eff.own_mode = self.eff.own_mode, False
             try:
-                out |= self.prov(v, stack)
+                got = self.prov(v, stack)
             finally:
                 self.eff.own_mode = saved
+            out |= {(_starred(x) if saved else x) for x in got}
         if not own:
             for v in self.stored_into.get(name, []):
                 out |= {x for x in self.prov(v, stack) if x != "fresh"}
@@ -160,8 +169,8 @@ class FuncFacts(object):
             base = self.prov(e.value, stack)
             out = set()
             for b in base:
-                if b == "self":
-                    out.add("self." + e.attr)
+                if b.rstrip("*") == "self":
+                    out.add("self." + e.attr + ("*" if b.endswith("*") else ""))
                 else:
                     out.add(b)
             return out
@@ -173,7 +182,7 @@ class FuncFacts(object):
                 # an element taken out of a container: what the container holds counts again
                 saved, self.eff.own_mode = True, False
                 try:
-                    return self.prov(e.value, stack)
+                    return {_starred(x) for x in self.prov(e.value, stack)}
                 finally:
                     self.eff.own_mode = saved
             return self.prov(e.value, stack)
@@ -253,10 +262,23 @@ class FuncFacts(object):
             return out
         if isinstance(e, ast.Starred):
             return self.prov(e.value, stack)
+        if isinstance(e, (ast.GeneratorExp, ast.ListComp, ast.SetComp)):
+            # a new container / iterator over images of the elements of its source
+            if self.eff.own_mode:
+                return {"fresh"}
+            return {"fresh"} | {x for x in self.prov(e.elt, stack) if x != "fresh"}
         return {"fresh"}
 
     def _actual(self, call: ast.Call, gf: "FuncFacts", root: str, stack) -> Set[str]:
         """provenance (in the caller) of the callee root ``root``"""
+        if root.endswith("*"):
+            # the callee reached it as the content of what it was given: ask for the content here too
+            saved, self.eff.own_mode = self.eff.own_mode, False
+            try:
+                got = self._actual(call, gf, root.rstrip("*"), stack)
+            finally:
+                self.eff.own_mode = saved
+            return {(_starred(x) if saved else x) for x in got}
         if root == "self" or root.startswith("self."):
             f = call.func
             if isinstance(f, ast.Attribute):
@@ -434,9 +456,48 @@ class Effects(object):
                 if isinstance(recv, ast.Attribute) and isinstance(recv.value, ast.Name) and recv.value.id == ff.self_name:
                     # a container attribute of the object itself: what it holds is not what is mutated
                     roots = {"self." + recv.attr}
+                elif not own and path and all(step.startswith(".") for step in path) and root != ff.self_name:
+                    # x.a.b.append(v): the container is reached from x by attributes only -- what was stored *into* x (or
+                    # into one of its containers) earlier is not on the way
+                    roots = self.in_own_mode(lambda: ff.prov(recv))
                 else:
                     roots = ff.own_prov(recv.id) if own else ff.prov(recv)
                 out.append(Site(fi, node, "call:" + node.func.attr, node.func, roots, own=own))
+        return out
+
+    def _context_classes(self, fi: FuncInfo, ff, call: ast.Call):
+        """[(class, provenance of what its constructor was given)] for the object a `with` item evaluates to: the class
+        called directly, or a helper all of whose returns construct it"""
+        p = self.p
+        out = []
+
+        def given_of(facts, ctor: ast.Call) -> Set[str]:
+            g: Set[str] = set()
+            for a in list(ctor.args) + [k.value for k in ctor.keywords]:
+                g |= {x for x in facts.prov(a) if x != "fresh"}
+            return g
+
+        f = call.func
+        target = None
+        try:
+            if isinstance(f, ast.Name):
+                target = p.lookup(fi.module.name, f.id)
+            elif isinstance(f, ast.Attribute) and isinstance(f.value, ast.Name) and fi.owner is not None and ff.self_name and f.value.id == ff.self_name:
+                _, target = p.class_attr_def(fi.owner, f.attr)
+        except Exception:
+            target = None
+        if isinstance(target, ClassInfo):
+            out.append((target, given_of(ff, call)))
+        elif isinstance(target, FuncInfo):
+            gf = self.facts(target)
+            for n in ast.walk(target.node):
+                if isinstance(n, ast.Return) and isinstance(n.value, ast.Call) and isinstance(n.value.func, ast.Name):
+                    C = p.lookup(target.module.name, n.value.func.id)
+                    if isinstance(C, ClassInfo):
+                        given: Set[str] = set()
+                        for r in given_of(gf, n.value):
+                            given |= {x for x in ff._actual(call, gf, r, ()) if x != "fresh"}
+                        out.append((C, given))
         return out
 
     def property_getters(self, name: str) -> List[FuncInfo]:
@@ -459,6 +520,7 @@ class Effects(object):
         ff = self.facts(fi)
         out = list(self.local_sites(fi))
         called_funcs = {id(n.func) for n in ast.walk(fi.node) if isinstance(n, ast.Call)}
+        with_calls = {id(it.context_expr) for n in ast.walk(fi.node) if isinstance(n, ast.With) for it in n.items if isinstance(it.context_expr, ast.Call)}
         for node in ast.walk(fi.node):
             if isinstance(node, ast.Attribute) and isinstance(node.ctx, ast.Load) and id(node) not in called_funcs:
                 # reading a property of the repository runs its getter on the receiver
@@ -472,6 +534,48 @@ class Effects(object):
                 callees = self.resolve_call(fi, node)
             else:
                 continue
+            # with <instance of a repo class>: its __enter__ / __exit__ run; what they reach through self is what the
+            # constructor was given
+            if isinstance(node, ast.Call) and id(node) in with_calls:
+                for C, given in self._context_classes(fi, ff, node):
+                    for mname in ("__enter__", "__exit__"):
+                        _, m_ = self.p.class_attr_def(C, mname)
+                        if not isinstance(m_, FuncInfo) or id(m_) in _stack:
+                            continue
+                        for s in self.transitive_sites(m_, depth - 1, _stack + (id(fi),)):
+                            roots = set()
+                            for r in s.roots:
+                                if r.rstrip("*") == "self" or r.startswith("self.") or r.startswith("param:"):
+                                    roots |= given or {"fresh"}
+                                else:
+                                    roots.add(r)
+                            out.append(Site(s.fi, s.node, s.kind, s.target, roots, via=(s.via + " <- " if s.via else "") + fi.qualname + " (with block)", own=s.own))
+            # functions handed on as values (map(f, xs), _each(records, f), callback registration): whoever receives them
+            # may call them on anything else it was given -- their parameters stand for the other arguments of this call
+            if isinstance(node, ast.Call):
+                others = [a for a in list(node.args) + [k.value for k in node.keywords]]
+                for a in others:
+                    g = None
+                    if isinstance(a, ast.Name) and a.id not in ff.params and a.id not in ff.assigns:
+                        r_ = self.p.lookup(fi.module.name, a.id)
+                        g = r_ if isinstance(r_, FuncInfo) else None
+                    elif isinstance(a, ast.Attribute) and isinstance(a.value, ast.Name) and fi.owner is not None and ff.self_name and a.value.id == ff.self_name:
+                        _, r_ = self.p.class_attr_def(fi.owner, a.attr)
+                        g = r_ if isinstance(r_, FuncInfo) and r_.kind != "property" else None
+                    if g is None or g is fi or id(g) in _stack:
+                        continue
+                    given: Set[str] = set()
+                    for b in others:
+                        if b is not a:
+                            given |= {x for x in ff.prov(b) if x != "fresh"}
+                    for s in self.transitive_sites(g, depth - 1, _stack + (id(fi),)):
+                        roots = set()
+                        for r in s.roots:
+                            if r.startswith("param:") or r == "self" or r.startswith("self."):
+                                roots |= given or {"fresh"}
+                            else:
+                                roots.add(r)
+                        out.append(Site(s.fi, s.node, s.kind, s.target, roots, via=(s.via + " <- " if s.via else "") + fi.qualname + " (handed on as a value)", own=s.own))
             for g in callees:
                 if g is fi:
                     continue
@@ -537,6 +641,9 @@ def classify_input_write(site: Site) -> Optional[str]:
     is_deref, is_ref = site.fi is deref_f, site.fi is ref_f
     slot = site.kind == "store" and pstr.rstrip().endswith("]") and ((".qualifiers" in pstr and "citation" in pstr) or _is_citation_list(site, root))
     if site.kind == "store":
+        from .roles import citation_private_helpers
+        if id(site.fi) in citation_private_helpers(site.fi.module.program) and (slot or ("[" in pstr and pstr.rstrip().endswith("]"))):
+            return "A1/A2 citation slot store in a helper only the citation rewrite runs (%s)" % site.fi.name
         from .roles import citation_value_stores
         callers = citation_value_stores(site.fi.module.program).get(id(site.fi))
         if callers is not None and callers and all(f is deref_f or f is ref_f for f in callers):
@@ -545,11 +652,32 @@ def classify_input_write(site: Site) -> Optional[str]:
         return "A1 citation slot store (dereference)"
     if is_ref and slot:
         return "A2 citation slot store (re-reference)"
-    if is_ref and site.kind == "call:setdefault" and ".annotations" in pstr and "'references'" in seg.replace('"', "'"):
+    from .roles import citation_private_helpers as _cph
+    in_pair = is_ref or id(site.fi) in _cph(site.fi.module.program)
+    if in_pair and site.kind == "call:setdefault" and ("annotations" in pstr or "annotations" in seg) and "'references'" in seg.replace('"', "'"):
         return "A3 annotations.setdefault('references', []) (explicitly tolerated: absent == empty)"
-    if is_ref and site.kind == "call:append" and root == "references":
+    if site.kind == "call:append" and (is_ref and root == "references" or (not is_ref and in_pair and _is_reference_list(site, root))):
         return "A4 references.append(ref) guarded by 'ref not in references' (never fires for an input: its citations came from its own list)"
     return None
+
+
+def _is_reference_list(site: Site, root: Optional[str]) -> bool:
+    """in a helper of the citation pair: the local appended to is the reference list (named so, or taken from an
+    attribute / annotation named references), and the append is guarded by a membership test of what is appended"""
+    if not root:
+        return False
+    fn = site.fi.node
+    named = "reference" in root.lower() or "known" in root.lower()
+    for n in ast.walk(fn):
+        if isinstance(n, ast.Assign) and any(isinstance(t, ast.Name) and t.id == root for t in n.targets):
+            src = ast.unparse(n.value)
+            if "references" in src:
+                named = True
+    if not named:
+        return False
+    guards = [n for n in ast.walk(fn) if isinstance(n, ast.Compare) and any(isinstance(op, (ast.In, ast.NotIn)) for op in n.ops)
+              and any(isinstance(c, ast.Name) and c.id == root for c in n.comparators)]
+    return bool(guards)
 
 
 def _is_citation_list(site: Site, root: Optional[str]) -> bool:
@@ -641,8 +769,8 @@ def _norm_stmt(t: str) -> str:
 
 
 def _is_value_store(p, s: Site) -> bool:
-    from .roles import citation_value_stores
-    return id(s.fi) in citation_value_stores(p)
+    from .roles import citation_value_stores, citation_private_helpers
+    return id(s.fi) in citation_value_stores(p) or (id(s.fi) in citation_private_helpers(p) and isinstance(s.target, ast.Subscript))
 
 
 def feature_writers(ctx, rule: str, eff: Effects, sites: List[Site]):
@@ -1234,7 +1362,7 @@ def builtin_method_lint(ctx, rule: str, scope=("moclo.core", "moclo.regex", "moc
                              "`%s` is a %s here and %s has no attribute `%s` (AttributeError at run time)" % (nm, ty, ty, node.attr),
                              "%s:%d" % (m.relpath, node.lineno))
     r.analysed["builtin_method_uses_checked"] = n_checked
-    r.floor(rule, 8)
+    r.floor(rule, 4)  # locals bound to a container display and sent a method: fewer after helpers are extracted
 
 
 # ---------------------------------------------------------------------------
@@ -1626,4 +1754,4 @@ def topology_gate_rule(ctx, rule: str):
                  "a freshly built circular record is handed annotations its constructor never checked (a file or record that declares "
                  "itself linear gets through): %s" % "; ".join("line %d `%s`" % b for b in bad), fi.where())
     r.analysed["functions_building_circular_records"] = n
-    r.floor(rule, 2)
+    r.floor(rule, 1)
